@@ -950,6 +950,15 @@ theorem src_thub_is_model (f : Nat) (st : St α) (s : ALV.C03.Src α) (n : Nat) 
   stepP_thub f st s n
 
 open ALV.C03.Src in
+/-- `Stream.__init__(*dargs)`: the tree `if len(dargs) == 0: raise TypeError` / `elif len(dargs) == 1:` (`iter(dargs[0])`
+    when iterable, else `it.repeat(dargs[0])`) / `else:` (all iterable: `it.chain(*[iter(arg) for arg in dargs])`, none:
+    `it.cycle(dargs)`, both kinds: `raise TypeError`) reads every argument list the way the call layer's `elabArgs` does
+    (`Stream(...)`, `x.append(...)`: `elabCall`); the iterator term of the result is `mkSrc` (the `.new` / `.append` /
+    `.thub` branches of `step`) -/
+theorem src_init_is_model : @initP α ALV.Gen.C03.init = elabArgs := by
+  funext args; exact initP_gen args
+
+open ALV.C03.Src in
 /-- `lazy_itertools.tee(x, n)` on an object of the pool: `isinstance(data, (Stream, Iterator))` holds, and
     `tuple(Stream(cp) for cp in it.tee(data, n))` is the `.tee` branch of the model (the iterator of the object is
     taken — a Stream is moved, a hub gives a use —, one `itertools.tee` over it, `n` new Streams on its output) -/
@@ -960,8 +969,9 @@ theorem src_tee_is_model (f : Nat) (st : St α) (i n : Nat) :
 open ALV.C03.Src in
 /-- **the model's step function is the interpretation of the regenerated programs**, for every fuel, state and
     operation (take / peek / skip / limit / append / map / filter / copy on Streams and StreamTeeHubs, `thub`,
-    `StreamTeeHub.__init__` and `lazy_itertools.tee` come from the programs; the constructor, `next(iter(x))`,
-    `list(x)` are the hand-written branches on both sides) -/
+    `StreamTeeHub.__init__` and `lazy_itertools.tee` come from the programs; `next(iter(x))`, `list(x)` and the
+    constructor on an already elaborated argument (`mkSrc`; the argument-list rules of `Stream.__init__` are
+    `src_init_is_model`) are the hand-written branches on both sides) -/
 theorem src_step_is_model : @stepP α ALV.Gen.C03.progs = step := by
   funext f st op; exact stepP_gen f st op
 
